@@ -188,6 +188,13 @@ decreasing_by
 def textMpub (body : Bytes) (maxMsg maxBody : Nat) : Except TextErr (List Bytes) :=
   textLoop maxMsg (maxBody + 1) (body.take (maxBody + 1)) 0 []
 
+/-- `doMPUB` text mode as seen over HTTP: with a known `Content-Length` the header is checked
+first (`req.ContentLength > MaxBodySize` → 413 BODY_TOO_BIG) -/
+def textMpubHttp (contentLengthKnown : Bool) (body : Bytes) (maxMsg maxBody : Nat) :
+    Except TextErr (List Bytes) :=
+  if contentLengthKnown && body.length > maxBody then .error .bodyTooBig
+  else textMpub body maxMsg maxBody
+
 /-- reference splitter: the pieces between newlines (like `bytes.Split(body, "\n")`) -/
 def splitNL : Bytes → List Bytes
   | [] => [[]]
